@@ -69,7 +69,7 @@ package common
 // unsigned integer and whose second is a byte string - which then become the slot and the hash.
 // Anything else (other arity, other element kinds) is an error, never a silently coerced point.
 //@ func (p *Point) UnmarshalCBOR(data) (err)
-//@   props C04
+//@   props C02 C04
 //@   attr trackcalls on
 //@   requires nonnil: p != nil
 //@   ensures generic: err == nil ==> called(Decode) && callres(Decode, 1) == nil && callarg(Decode, 0) == data &&
@@ -77,3 +77,13 @@ package common
 //@   ensures arity: err == nil ==> len(tmp) == 0 || len(tmp) == 2
 //@   ensures pair: err == nil && len(tmp) == 2 ==> dyn(tmp[0]) == type(uint64) && dyn(tmp[1]) == type([]byte) &&
 //@       p.Slot == unbox(tmp[0], type(uint64)) && p.Hash == unbox(tmp[1], type([]byte))
+
+// ---- generated by /verif/tools/gen_c02_contracts.py (UnmarshalCBOR sweep) ----
+// C02: no index, slice expression, type assertion or dereference in these decoders can panic.
+//@ func (p *DmqMessagePayload) UnmarshalCBOR(data) (err)
+//@   props C02
+//@ func (m *DmqMessage) UnmarshalCBOR(data) (err)
+//@   props C02
+//@ func (r *RejectReasonData) UnmarshalCBOR(data) (err)
+//@   props C02
+// ---- end generated (UnmarshalCBOR sweep) ----
